@@ -285,6 +285,34 @@ def run_atomic(case):
     return ["Ok", canon_atomic(obj)], obj
 
 
+def run_handover(case):
+    """the atomic case with the wavefunction handed over as something that is already a model: `as` = "model" (a
+    WavefunctionProperties object built from the case's dictionary) or "attrs" (wavefunction and return_result are the attributes
+    of another AtomicResult built from the case under protocol `all`). When that first object cannot be built there is nothing to
+    hand over: outcome ["Outside", class]."""
+    from qcelemental.models import AtomicResult
+    from qcelemental.models.results import WavefunctionProperties
+    kw = atomic_kwargs(case)
+    try:
+        if case["as"] == "model":
+            kw["wavefunction"] = WavefunctionProperties(**kw["wavefunction"])
+        else:
+            first = AtomicResult(**dict(kw, protocols={"wavefunction": "all"}))
+            kw["wavefunction"], kw["return_result"] = first.wavefunction, first.return_result
+    except Exception as e:
+        return ["Outside", ekind(e)], None
+    try:
+        obj = AtomicResult(**kw)
+    except Exception as e:
+        return ["Err", ekind(e)], None
+    return ["Ok", canon_atomic(obj)], obj
+
+
+def oracle_handover(case, out, obj):
+    """the same retention / shapes / re-validation as for a dictionary: how the wavefunction is handed over does not matter"""
+    return [] if out[0] == "Outside" else oracle_atomic(case, out, obj)
+
+
 def revalidate(cls, obj, canon):
     try:
         again = cls(**obj.dict())
@@ -417,7 +445,7 @@ def oracle_layout(case, out, obj):
     return []
 
 
-RUN = {"layout": run_layout, "atomic": run_atomic, "wfnprops": run_wfnprops, "props": run_props, "traj": run_traj, "basis": run_basis}
+RUN = {"layout": run_layout, "handover": run_handover, "atomic": run_atomic, "wfnprops": run_wfnprops, "props": run_props, "traj": run_traj, "basis": run_basis}
 
 # ---------------------------------------------------------------------------------------------------------
 # the property oracle (on the implementation's answers)
@@ -786,7 +814,7 @@ def oracle_basis(case, out, obj):
     return bad
 
 
-ORACLE = {"layout": oracle_layout, "atomic": oracle_atomic, "wfnprops": oracle_wfnprops, "props": oracle_props, "traj": oracle_traj, "basis": oracle_basis}
+ORACLE = {"layout": oracle_layout, "handover": oracle_handover, "atomic": oracle_atomic, "wfnprops": oracle_wfnprops, "props": oracle_props, "traj": oracle_traj, "basis": oracle_basis}
 
 # ---------------------------------------------------------------------------------------------------------
 # Gallina terms
@@ -974,6 +1002,16 @@ def gen_atomic(rng, k=None, weird=0.2):
     return case
 
 
+def gen_handover(rng, k=None):
+    """an atomic case (always with a wavefunction, beta quantities and pointers to them present more often than not) whose
+    wavefunction is handed to AtomicResult as a model: every protocol, restricted or not"""
+    case = gen_atomic(rng, k, weird=0.1)
+    while case["wfn"] is None:
+        case["wfn"] = gen_wfn(rng, 0.1)
+    case["as"] = rng.choice(["model", "model", "attrs"])
+    return case
+
+
 def gen_props(rng):
     natom = rng.choice([None, 0, 1, 2, 2, 3, 3, 4, -1]) if rng.random() < 0.9 else rng.choice([1, 2, 3])
     names = rng.sample(sorted(PROP_ARRAYS), rng.randint(1, 5))
@@ -1099,6 +1137,12 @@ def gen_cases(ctx):
         yield (("atomic", gen_atomic(rng, None, weird=0.5)))
     for _ in range(8000 if th else 500):
         yield (("wfnprops", {"wfn": gen_wfn(rng, weird=0.4)}))
+    # the wavefunction handed over as a WavefunctionProperties object / as another result's attributes (oracle only), full
+    # protocol product first
+    for k in range(n_combo * (4 if th else 1)):
+        yield (("handover", gen_handover(rng, k)))
+    for _ in range(4000 if th else 300):
+        yield (("handover", gen_handover(rng)))
     for _ in range(30000 if th else 1500):
         yield (("props", gen_props(rng)))
     for pol in [None] + TRAJ + ["bogus"]:         # exhaustive over length 0..6 in original order, then permuted ids
@@ -1120,7 +1164,7 @@ def gen_cases(ctx):
 
 def supplied_specs(stream, case):
     """[(where, spec)] of every array the case hands to the constructor"""
-    if stream == "atomic":
+    if stream in ("atomic", "handover"):
         return ([("return_result", case["rr"])] if case["rr"][0] == "arr" else []) + \
                [(k, v) for k, v in (case["wfn"] or []) if v[0] == "arr"]
     if stream == "wfnprops":
@@ -1156,8 +1200,8 @@ def supplied_intact():
 
 def snapshot(stream, obj):
     """what an accepted object says, for 'later calls do not change earlier results'"""
-    if stream in ("atomic", "layout"):
-        return canon_atomic(obj) if stream == "atomic" else obj.return_result.reshape(-1).tolist()
+    if stream in ("atomic", "handover", "layout"):
+        return canon_atomic(obj) if stream != "layout" else obj.return_result.reshape(-1).tolist()
     if stream == "wfnprops":
         return canon_wfn(obj.dict())
     if stream == "props":
@@ -1274,11 +1318,11 @@ def smaller(stream, case):
     """candidate reductions of a case (fewer fields first, then simpler values)"""
     import copy
     out = []
-    if stream in ("atomic", "wfnprops") and case.get("wfn"):
+    if stream in ("atomic", "handover", "wfnprops") and case.get("wfn"):
         core = [it for it in case["wfn"] if it[0] in ("basis", "restricted")]
         if len(core) < len(case["wfn"]):               # the big jumps first
             c = dict(copy.deepcopy(case), wfn=copy.deepcopy(core))
-            if stream == "atomic":
+            if stream in ("atomic", "handover"):
                 out.append(dict(c, rr=["float", 0], driver="energy", native=None, stdout=None, pstdout=None, pnative=None))
             out.append(c)
         for i in range(len(case["wfn"])):
@@ -1286,8 +1330,8 @@ def smaller(stream, case):
                 c = copy.deepcopy(case)
                 del c["wfn"][i]
                 out.append(c)
-    if stream == "atomic":
-        for key, val in (("wfn", None), ("native", None), ("stdout", None), ("pnative", None), ("pstdout", None), ("pw", None)):
+    if stream in ("atomic", "handover"):
+        for key, val in ((("wfn", None),) if stream == "atomic" else ()) + (("native", None), ("stdout", None), ("pnative", None), ("pstdout", None), ("pw", None)):
             if case.get(key) is not None:
                 out.append(dict(copy.deepcopy(case), **{key: val}))
         if case["rr"] != ["float", 0]:
@@ -1430,7 +1474,8 @@ def correspond(ctx):
     corr = Corr()
     corr.rule = ("full product of 6 wavefunction-protocol settings (5 + default) x 3 stdout x 4 native-file x 4 drivers with random "
                  "wavefunction payloads/pointers and flat/shaped/list/wrong-sized arrays; WavefunctionProperties and "
-                 "AtomicResultProperties directly; arrays as float64/float32/int32/int64/big-endian, C/Fortran/strided or nested lists; the "
+                 "AtomicResultProperties directly; the wavefunction handed to AtomicResult as a WavefunctionProperties object or as another "
+                 "result's attributes under every protocol (oracle only); arrays as float64/float32/int32/int64/big-endian, C/Fortran/strided or nested lists; the "
                  "wavefunction basis as a BasisSet object or as plain data, from a family with distinct names and from one sharing "
                  "name, center key and atom_map across function counts and shell layouts; trajectories of length 0..7 under every "
                  "policy; random basis sets (fused and general contractions, nbf right/wrong/absent); a history stream (runs of "
@@ -1512,7 +1557,7 @@ def correspond(ctx):
                     continue
             corr.failures.append({"stream": "oracle-" + stream, "case": {"stream": stream, "input": case}, "what": what,
                                   "observed": out, "tag": tag})
-        if stream == "layout":
+        if stream in ("layout", "handover"):
             continue
         if stream == "basis":
             bterms.append(basis_term(case, out))
@@ -1567,8 +1612,8 @@ def search(ctx, corr, reasons):
     found = [] if any(f.get("stream") == "oracle-history" for f in corr.failures) else history_failures(rng, 300)
     state_dependent = bool(found) or any(f.get("stream") == "oracle-history" for f in corr.failures)
     for _ in range(1500):
-        stream = rng.choice(["atomic", "atomic", "props", "basis", "traj"])
-        case = {"atomic": lambda: gen_atomic(rng, None, 0.3), "props": lambda: gen_props(rng), "basis": lambda: gen_basis(rng),
+        stream = rng.choice(["atomic", "atomic", "props", "basis", "traj", "handover"])
+        case = {"atomic": lambda: gen_atomic(rng, None, 0.3), "handover": lambda: gen_handover(rng), "props": lambda: gen_props(rng), "basis": lambda: gen_basis(rng),
                 "traj": lambda: {"policy": rng.choice(TRAJ), "ids": list(range(rng.randint(0, 5)))}}[stream]()
         try:
             out, bad = judge(stream, case)
